@@ -312,9 +312,17 @@ class HybridClass(metaclass=MetaHybridClass):
                 out[ff] = vv.to_dict()
             elif hasattr(vv, "_to_dict"):
                 out[ff] = vv._to_dict()
-            elif np.any(defaults.get(ff) != vv):
-                # Only include those scalar values that are not default.
-                out[ff] = vv
+            else:
+                # Only include those values that are not default. Fields
+                # without a default (dynamic types) are always included.
+                try:
+                    is_default = ff in defaults and not np.any(
+                        defaults[ff] != vv
+                    )
+                except ValueError:  # not comparable elementwise (N-d array)
+                    is_default = False
+                if not is_default:
+                    out[ff] = vv
 
         return out
 
